@@ -129,6 +129,23 @@ func thoroughExtras(c *Ctx, check func(*Ctx), prop, repo, verifDir string) {
 			case !strings.Contains(text, "MUT-DONE"):
 				res.Verdict = "error"
 				res.Hits = []string{strings.TrimSpace(text)}
+			case m.Rule == "none":
+				// negative control: nothing new may be reported
+				res.Verdict = "quiet"
+				for _, line := range strings.Split(text, "\n") {
+					if !strings.HasPrefix(line, "MUT-HIT ") {
+						continue
+					}
+					hit := strings.TrimPrefix(line, "MUT-HIT ")
+					parts := strings.SplitN(hit, "|", 2)
+					if len(parts) == 2 {
+						if prev, ok := c.R.seen[parts[0]+"|"+parts[1]]; ok && prev.st != Discharged {
+							continue // reported on the unchanged tree as well (a known finding)
+						}
+					}
+					res.Hits = append(res.Hits, hit)
+					res.Verdict = "FALSE-ALARM"
+				}
 			default:
 				res.Verdict = "missed"
 				for _, line := range strings.Split(text, "\n") {
@@ -169,11 +186,16 @@ func thoroughExtras(c *Ctx, check func(*Ctx), prop, repo, verifDir string) {
 	}
 	wg.Wait()
 	sort.Slice(results, func(i, j int) bool { return results[i].Name < results[j].Name })
-	killed, missed, na, documented := 0, 0, 0, 0
+	killed, missed, na, documented, quiet, falseAlarms := 0, 0, 0, 0, 0, 0
 	for _, r := range results {
 		switch r.Verdict {
 		case "killed", "killed-by-other-rule":
 			killed++
+		case "quiet":
+			quiet++
+		case "FALSE-ALARM":
+			falseAlarms++
+			fmt.Printf("SELFTEST-FALSE-ALARM property=%s benign rewrite %s is reported: %v\n", prop, r.Name, r.Hits)
 		case "n/a", "no-compile":
 			na++
 		case "missed":
@@ -188,9 +210,9 @@ func thoroughExtras(c *Ctx, check func(*Ctx), prop, repo, verifDir string) {
 			fmt.Printf("SELFTEST-MISS property=%s mutant=%s expected %s at %s; fired: %v\n", prop, r.Name, r.Expect, r.At, r.Hits)
 		}
 	}
-	c.R.Extra["self_test"] = map[string]any{"mutants": len(results), "killed": killed, "missed": missed, "not_applicable": na, "documented_undetectable": documented, "matrix": results,
+	c.R.Extra["self_test"] = map[string]any{"mutants": len(results), "killed": killed, "missed": missed, "not_applicable": na, "documented_undetectable": documented, "benign_rewrites_quiet": quiet, "benign_rewrites_reported": falseAlarms, "matrix": results,
 		"note": "each mutant is a one-edit variant of the current sources applied in memory (packages overlay) and analysed in a child process; 'killed' = the named rule reported the named construct"}
-	fmt.Printf("self-test: %d mutants (incl. the archived seeded changes), %d killed, %d missed, %d n/a, %d documented as not detectable\n", len(results), killed, missed, na, documented)
+	fmt.Printf("self-test: %d mutants (incl. the archived seeded changes), %d killed, %d missed, %d n/a, %d documented as not detectable; %d benign rewrites quiet, %d reported\n", len(results), killed, missed, na, documented, quiet, falseAlarms)
 }
 
 func idx(rs []mutantResult, name string) int {
